@@ -34,7 +34,8 @@ use rand_distr::{Distribution, Normal};
 
 use crate::{
     layouts::{
-        Backend, NoiseInfos, VecZnxBig, VecZnxBigToMut, VecZnxBigToRef, VecZnxToMut, VecZnxToRef, ZnxInfos, ZnxView, ZnxViewMut,
+        Backend, NoiseInfos, VecZnx, VecZnxBig, VecZnxBigToMut, VecZnxBigToRef, VecZnxToMut, VecZnxToRef, ZnxInfos, ZnxView,
+        ZnxViewMut,
     },
     reference::znx::{get_carry_i128, get_digit_i128},
     source::Source,
@@ -349,15 +350,6 @@ fn nfc_extract_digit_addmul(base2k: usize, scale: usize, res: &mut [i64], src: &
         let digit = get_digit_i128(base2k, *s);
         *s = get_carry_i128(base2k, *s, digit);
         *r = r.wrapping_add((digit as i64).wrapping_shl(scale as u32));
-    }
-}
-
-#[inline(always)]
-fn nfc_extract_digit_assignmul<O: AssignOp>(base2k: usize, scale: usize, res: &mut [i64], src: &mut [i128]) {
-    for (r, s) in res.iter_mut().zip(src.iter_mut()) {
-        let digit = get_digit_i128(base2k, *s);
-        *s = get_carry_i128(base2k, *s, digit);
-        *r = O::apply_i64(*r, (digit as i64).wrapping_shl(scale as u32));
     }
 }
 
@@ -703,153 +695,6 @@ fn ntt120_vec_znx_big_normalize_inter_assign<O, R, A, BE>(
             nfc_final_carry_assign::<O>(base2k, res.at_mut(res_col, res_end - j - 1), carry);
         } else {
             nfc_middle_carry_assign::<O>(base2k, res.at_mut(res_col, res_end - j - 1), carry);
-        }
-    }
-}
-
-#[allow(clippy::too_many_arguments)]
-fn ntt120_vec_znx_big_normalize_cross_assign<O, R, A, BE>(
-    res: &mut R,
-    res_base2k: usize,
-    res_offset: i64,
-    res_col: usize,
-    a: &A,
-    a_base2k: usize,
-    a_col: usize,
-    carry: &mut [i128],
-) where
-    O: AssignOp,
-    R: VecZnxToMut,
-    A: VecZnxBigToRef<BE>,
-    BE: Backend<ScalarBig = i128> + I128NormalizeOps,
-{
-    let mut res = res.to_mut();
-    let a = a.to_ref();
-
-    let n = res.n();
-    let res_size = res.size();
-    let a_size = a.size();
-
-    let (a_norm, carry) = carry.split_at_mut(n);
-    let (res_carry, a_carry) = carry[..2 * n].split_at_mut(n);
-    nfc_zero(res_carry);
-
-    let a_tot_bits: usize = a_size * a_base2k;
-    let res_tot_bits: usize = res_size * res_base2k;
-
-    let mut lsh: i64 = res_offset % a_base2k as i64;
-    let mut limbs_offset: i64 = res_offset / a_base2k as i64;
-
-    if res_offset < 0 && lsh != 0 {
-        lsh = (lsh + a_base2k as i64) % (a_base2k as i64);
-        limbs_offset -= 1;
-    }
-
-    let lsh_pos: usize = lsh as usize;
-    let res_end_bit: usize = (-limbs_offset * a_base2k as i64).clamp(0, res_tot_bits as i64) as usize;
-    let res_start_bit: usize = (a_tot_bits as i64 - limbs_offset * a_base2k as i64).clamp(0, res_tot_bits as i64) as usize;
-    let a_end_bit: usize = (limbs_offset * a_base2k as i64).clamp(0, a_tot_bits as i64) as usize;
-    let a_start_bit: usize = (res_tot_bits as i64 + limbs_offset * a_base2k as i64).clamp(0, a_tot_bits as i64) as usize;
-
-    let res_end: usize = res_end_bit / res_base2k;
-    let res_start: usize = res_start_bit.div_ceil(res_base2k);
-    let a_end: usize = a_end_bit / a_base2k;
-    let a_start: usize = a_start_bit.div_ceil(a_base2k);
-
-    if res_start == 0 {
-        return;
-    }
-
-    let a_out_range: usize = a_size.saturating_sub(a_start);
-    for j in 0..a_out_range {
-        if j == 0 {
-            nfc_first_carry_only(a_base2k, lsh_pos, a.at(a_col, a_size - j - 1), a_carry);
-        } else {
-            nfc_middle_carry_only(a_base2k, lsh_pos, a.at(a_col, a_size - j - 1), a_carry);
-        }
-    }
-    if a_out_range == 0 {
-        nfc_zero(a_carry);
-    }
-
-    // If the shifted `a` lies entirely below `res`, the carry of a[0] sits `gap_bits`
-    // below the last bit of `res`: scale it down (with rounding) before it is propagated.
-    let gap_bits: usize = (-limbs_offset * a_base2k as i64).saturating_sub(res_tot_bits as i64).max(0) as usize;
-    if gap_bits != 0 {
-        if gap_bits < i128::BITS as usize {
-            nfc_mul_pow2_assign(-(gap_bits as i64), a_carry);
-        } else {
-            nfc_zero(a_carry);
-        }
-    }
-
-    let mut res_acc_left: usize = res_base2k;
-    let mut res_limb: usize = res_start - 1;
-    let mid_range: usize = a_start.saturating_sub(a_end);
-
-    'outer: for j in 0..mid_range {
-        let a_limb: usize = a_start - j - 1;
-        let a_slice: &[i128] = a.at(a_col, a_limb);
-        let mut a_take_left: usize = a_base2k;
-
-        nfc_middle_step_i128(a_base2k, lsh_pos, a_norm, a_slice, a_carry);
-
-        if j == 0 {
-            if !(a_tot_bits - a_start_bit).is_multiple_of(a_base2k) {
-                let take: usize = (a_tot_bits - a_start_bit) % a_base2k;
-                nfc_mul_pow2_assign(-(take as i64), a_norm);
-                a_take_left -= take;
-            } else if !(res_tot_bits - res_start_bit).is_multiple_of(res_base2k) {
-                res_acc_left -= (res_tot_bits - res_start_bit) % res_base2k;
-            }
-        }
-
-        'inner: loop {
-            let res_slice: &mut [i64] = res.at_mut(res_col, res_limb);
-            let a_take: usize = a_base2k.min(a_take_left).min(res_acc_left);
-
-            if a_take != 0 {
-                let scale: usize = res_base2k - res_acc_left;
-                nfc_extract_digit_assignmul::<O>(a_take, scale, res_slice, a_norm);
-                a_take_left -= a_take;
-                res_acc_left -= a_take;
-            }
-
-            if res_acc_left == 0 || a_limb == 0 {
-                if a_limb == 0 && a_take_left == 0 {
-                    nfc_add_assign(a_carry, a_norm);
-                    if res_acc_left != 0 {
-                        let scale: usize = res_base2k - res_acc_left;
-                        nfc_extract_digit_assignmul::<O>(res_acc_left, scale, res_slice, a_carry);
-                    }
-                    BE::nfc_middle_step_assign(res_base2k, 0, res_slice, res_carry);
-                    nfc_add_assign(res_carry, a_carry);
-                    break 'outer;
-                }
-
-                if res_limb == 0 {
-                    break 'outer;
-                }
-
-                res_acc_left += res_base2k;
-                res_limb -= 1;
-            }
-
-            if a_take_left == 0 {
-                nfc_add_assign(a_carry, a_norm);
-                break 'inner;
-            }
-        }
-    }
-
-    if res_end != 0 {
-        let carry_to_use = if a_start == a_end { a_carry } else { res_carry };
-        for j in 0..res_end {
-            if j == res_end - 1 {
-                nfc_final_carry_assign::<O>(res_base2k, res.at_mut(res_col, res_end - j - 1), carry_to_use);
-            } else {
-                nfc_middle_carry_assign::<O>(res_base2k, res.at_mut(res_col, res_end - j - 1), carry_to_use);
-            }
         }
     }
 }
@@ -1472,7 +1317,20 @@ pub fn ntt120_vec_znx_big_normalize_assign<O, R, A, BE>(
     if res_base2k == a_base2k {
         ntt120_vec_znx_big_normalize_inter_assign::<O, _, _, _>(res_base2k, res, res_offset, res_col, a, a_col, carry);
     } else {
-        ntt120_vec_znx_big_normalize_cross_assign::<O, _, _, _>(res, res_base2k, res_offset, res_col, a, a_base2k, a_col, carry);
+        // Cross-base2k: normalize into a temporary, then limb-wise `res ±= tmp`, exactly as the
+        // HAL default does (the limbs of `res` must not be re-normalized on the way).
+        let (n, size) = {
+            let res_ref = res.to_mut();
+            (res_ref.n(), res_ref.size())
+        };
+        let mut tmp: VecZnx<Vec<u8>> = VecZnx::alloc(n, 1, size);
+        ntt120_vec_znx_big_normalize_cross(&mut tmp, res_base2k, res_offset, 0, a, a_base2k, a_col, carry);
+        let mut res_ref = res.to_mut();
+        for j in 0..size {
+            for (ri, ti) in res_ref.at_mut(res_col, j).iter_mut().zip(tmp.at(0, j).iter()) {
+                *ri = O::apply_i64(*ri, *ti);
+            }
+        }
     }
 }
 
